@@ -82,7 +82,7 @@ def gen_ops(ctx):
                         v = distinct_vals(r, n, 15)
                         w = dst_values(v, md, ms, 15)        # p2 colour-equal to p1 now and then
                         ops.append("alg %s %s %s %s %s | %s" % (cs, t, dl, sl, lst(v), lst(w)))
-                for m in ["V", "R"] + (["P"] if n >= 2 and ident(md) else []):
+                for m in ["V", "R"] + (["P", "I"] if n >= 2 and ident(md) else []):
                     for _ in range(reps):
                         ops.append("acc %s %s %s %s %s" % (cs, t, m, dl, lst(distinct_vals(r, n, TMAX[t]))))
         # ---- packed / bit-aligned family
